@@ -96,6 +96,7 @@ theorem updateK_evol (s : State) (c : CtxId) (cons : Addr) (provs : List Addr) (
       split; · exact CtxsEvol.refl s
       split; · exact CtxsEvol.refl s
       split; · exact CtxsEvol.refl s
+      split; · exact CtxsEvol.refl s
       obtain ⟨⟨c1, c2, c3, _, _, _⟩, _, _, hr, hst, hsup⟩ := updThr_ok hu
       have hmod : x1.mod = x.mod := by
         unfold updThr at hu; dsimp only at hu
